@@ -15,6 +15,8 @@ from vf.engine import Lemma
 from vf.refvm import adump
 from vf.symlib import native, pin
 
+import re
+_ADDR = re.compile(r"0x[0-9a-f]+")
 PROPERTY = "C14"
 RULE = ("Base program, cache state, mutator, payload opcode and index/slice bounds are solver-partitioned; every "
         "mutator x index pair is one path. Views compared: AST dump, imports/calls summaries, has_*, unsafe/non-standard imports, severity, dumps().")
@@ -36,7 +38,7 @@ def views(p):
     out = {}
     for name, fn in [
         ("ast", lambda: adump(p.ast)),
-        ("src", lambda: ast.unparse(p.ast)),
+        ("src", lambda: _ADDR.sub("0x", ast.unparse(p.ast))),      # FROZENSET nodes print an object address (recorded C05 finding)
         ("imports", lambda: [adump(n) for n in p.properties.imports]),
         ("calls", lambda: [adump(n) for n in p.properties.calls]),
         ("safe_imports", lambda: sorted(p.properties.likely_safe_imports)),
@@ -180,9 +182,103 @@ def _coherent(base, warm, name, i, j, pay):
     return views(p) == views(Pickled(list(p)))
 
 
+# ---------------------------------------------------------------------------------------------
+# every opcode class the library defines, as the inserted / replacing opcode (a special case keyed on the opcode's
+# class or on how its argument compares arrives in the domain by itself)
+X_BASES = [b"\x80\x04]\x94(\x8c\x02os\x94\x8c\x06system\x94\x8c\x07echo hi\x94e.",       # ['os','system','echo hi']: strings on the stack
+           b"(I1\nK\x00G\x00\x00\x00\x00\x00\x00\x00\x00K\x01t."]                                     # ints 1, 0, float 0.0, int 1
+X_NOPS = [len(Pickled.load(b)) for b in X_BASES]
+
+
+def default_instance(cls):
+    """an opcode of class `cls` with a representative argument"""
+    info = cls.info
+    if info.arg is None:
+        return cls()
+    n = info.arg.name
+    if cls.name in ("GLOBAL", "INST"):
+        return cls("os system")
+    if cls.name == "GET":
+        return cls.create(0)
+    if n in ("uint1", "uint2", "int4", "uint4", "uint8", "decimalnl_short", "decimalnl_long", "long1", "long4"):
+        return cls(1)
+    if n == "float8":
+        return cls(1.5)
+    if "bytes" in n:
+        return cls(b"b")
+    return cls("s")
+
+
+ALL_CLASSES = sorted(F.OPCODES_BY_NAME)
+
+
+def equal_twin(op):
+    """same class, an argument that compares equal but is a different constant (True vs 1, -0.0 vs 0.0, 1.0 vs 1)"""
+    a = op.arg
+    if isinstance(a, bool):
+        t = int(a)
+    elif isinstance(a, int) and a in (0, 1):
+        t = bool(a)
+    elif isinstance(a, int):
+        t = float(a)
+    elif isinstance(a, float) and a == 0.0:
+        t = -a if str(a)[0] != "-" else 0.0
+    else:
+        return None
+    return type(op)(t)
+
+
+def make_allops(kind, base):
+    def lem(warm: int, i: int, ci: int) -> bool:
+        """
+        pre: 0 <= warm < 2 and 0 <= i < 14 and 0 <= ci < 64
+        post: _
+        """
+        warm = pin(warm, 0, 1)
+        n = X_NOPS[base]
+        if i > n:
+            return True
+        i = pin(i, 0, n)
+        if kind == 2:
+            if ci != 0:
+                return True
+        elif ci >= len(ALL_CLASSES):
+            return True
+        else:
+            ci = pin(ci, 0, len(ALL_CLASSES) - 1)
+        with native():
+            p = Pickled.load(X_BASES[base])
+            if warm:
+                views(p)
+            try:
+                if kind == 0:
+                    p.insert(i, default_instance(F.OPCODES_BY_NAME[ALL_CLASSES[ci]]))
+                elif kind == 1:
+                    p[i] = default_instance(F.OPCODES_BY_NAME[ALL_CLASSES[ci]])
+                else:
+                    t = equal_twin(p[i])
+                    if t is None:
+                        return True
+                    p[i] = t
+            except Exception:
+                pass
+            rt.reach(warm > 0)
+            return views(p) == views(Pickled(list(p)))
+
+    lem.__name__ = lem.__qualname__ = "allops_%s_b%d" % (["insert", "replace", "twin"][kind], base)
+    return lem
+
+
 def lemmas(tier):
     q = tier == "quick"
     L = []
+    for kind in range(3):
+        for base in range(2):
+            fn = make_allops(kind, base)
+            L.append(Lemma(fn.__name__, fn, timeout=300 if q else 1500, dry=[{"warm": 1, "i": 3, "ci": ALL_CLASSES.index("STACK_GLOBAL") if kind < 2 else 0}],
+                           doc={"F": ["edit: %s" % ["insert", "replace", "replace by an equal-comparing twin (True~1, -0.0~0.0, 1.0~1)"][kind],
+                                      "opcode class: all %d classes in OPCODES_BY_NAME with a representative argument" % len(ALL_CLASSES) if kind < 2 else "twin of the opcode at the index",
+                                      "base %d of 2 (strings on the stack; ints and a float), every index, cold/warm" % base], "bound": "single edit"}))
     for name in MUTATORS:
         L.append(Lemma("coherent_" + name, make_lemma(name), timeout=200 if q else 900,
                        dry=[{"base": 1, "warm": 1, "i": 2 if name in USES_I else 0, "j": 0, "pay": 1 if name in USES_PAY else 0},
